@@ -227,13 +227,26 @@ def split_tactic(ob, facts, timeout_ms, extra=(), prefer=()):
                 first = [c for c in cands if str(c).replace("\n", " ")[:60] in prefer]
                 cands = first + [c for c in cands if all(c is not f for f in first)][:8]
         done = False
-        for c in list(cands):
+        # a conjunct about a range [lo, t + 1): the new index t is the natural case distinction (range extension)
+        local = []
+        if z3.is_implies(p):
+            ante = p.children()[0]
+            for atom in (ante.children() if z3.is_and(ante) else [ante]):
+                if z3.is_app(atom) and atom.decl().kind() in (z3.Z3_OP_LT, z3.Z3_OP_LE) and atom.num_args() == 2:
+                    x, y = atom.children()
+                    if z3.is_int(x) and z3.is_const(x) and z3.is_app(y) and y.decl().kind() == z3.Z3_OP_ADD:
+                        top_ = z3.simplify(y - 1) if atom.decl().kind() == z3.Z3_OP_LT else z3.simplify(y)
+                        local.append(x == top_)
+        for c in local + list(cands):
             if time.time() > deadline:
                 return None
             if _prove(list(ob.hyps) + [c], facts, extra, p, per) == z3.unsat and _prove(list(ob.hyps) + [z3.Not(c)], facts, extra, p, per) == z3.unsat:
-                splits.append(str(c).replace("\n", " ")[:60])
-                cands.remove(c)
-                cands.insert(0, c)        # the distinction that helped once is tried first for the next conjunct
+                if any(c is l_ for l_ in local):
+                    splits.append("the new index of a range")
+                else:
+                    splits.append(str(c).replace("\n", " ")[:60])
+                    cands.remove(c)
+                    cands.insert(0, c)        # the distinction that helped once is tried first for the next conjunct
                 done = True
                 break
         if not done:
